@@ -97,12 +97,9 @@ theorem linkOne_locked [DecidableEq α] (E : Env α) (w : World α) (p q : Pair)
   unfold World.linkOne
   split
   · exact h
-  · have := assign_sameTabs E
-      { w with edges := w.edges ++ [(⟨p, q⟩ : Edge)],
-               hooked := if (w.partners p).isEmpty && E.isList p.2 && E.isList q.2 && !(decide (p ∈ w.hooked))
-                         then p :: w.hooked else w.hooked } q (w.val p) (by simp [h])
-    simp only at this ⊢
-    rw [this.2.1]; exact h
+  · have hr : (w.register E p q).locked = [] := h
+    have := assign_sameTabs E (w.register E p q) q (w.val p) (by simp [hr])
+    rw [this.2.1]; exact hr
 
 theorem link_locked [DecidableEq α] (E : Env α) (w : World α) (p q : Pair) (b : Bool) (h : w.locked = []) :
     (w.link E p q b).world.locked = [] := by
